@@ -523,7 +523,9 @@ func oracle(w *world, res result) [][2]string {
 			}
 		}
 	}
-	if len(vr.Packages) != len(w.ir.Packages) || vr.Hash.String() != w.ir.Hash.String() || len(vr.Environments) != len(w.ir.Environments) {
+	if len(vr.Packages) != len(w.ir.Packages) || vr.Hash.String() != w.ir.Hash.String() || len(vr.Environments) != len(w.ir.Environments) ||
+		len(vr.Distributions) != len(w.ir.Distributions) || len(vr.Repositories) != len(w.ir.Repositories) ||
+		(vr.Distributions == nil) != (w.ir.Distributions == nil) || (vr.Repositories == nil) != (w.ir.Repositories == nil) {
 		bad("", "report-does-not-carry-the-index-report's-packages")
 	}
 	// a swallowed remote failure: the report silently lacks that matcher
@@ -564,8 +566,11 @@ func oracle(w *world, res result) [][2]string {
 			}
 		}
 	} else if enriched {
-		// enrichers ran on the finished report
+		// enrichers ran on the finished report, each with a getter bound to its own name
 		for i := range sc.enrichers {
+			if w.getterName[i] != "" && w.getterName[i] != "e"+strconv.Itoa(i) {
+				bad("", "enricher-%d-was-handed-the-enrichment-getter-of-%s", i, w.getterName[i])
+			}
 			if w.enrichRan[i] && (w.seenVulns[i] != len(vr.Vulnerabilities) || w.seenPkgs[i] != len(vr.PackageVulnerabilities)) {
 				bad("", "enricher-%d-saw-an-unfinished-report vulns=%d/%d", i, w.seenVulns[i], len(vr.Vulnerabilities))
 			}
